@@ -240,6 +240,7 @@ impl Cache {
         let mut v: Vec<(String, IpAddr)> = self
             .0
             .refresh_due_hostname_resolutions(hostname)
+            .0
             .into_iter()
             .map(|(h, a)| (h, a.to_ip_addr()))
             .collect();
